@@ -45,3 +45,26 @@ package mail
 //@   requires[C09:nonnil] file != nil
 //@ func mail.fileFromReader
 //@   ensures[C09:nonnil] r1 == nil ==> r0 != nil
+
+// ---------------------------------------------------------------------------
+// C19  No connection outlives a failed operation
+//
+//@ func mail.Client.tls
+//@   requires[C19:wf] cwf(client) && isEnc != nil
+//@   ensures[C19:bal] cwf(client) && csock(client) == old(csock(client)) && livebal(csock(client)) == old(livebal(csock(client)))
+//@ func mail.Client.auth
+//@   requires[C19:wf] cwf(client)
+//@   ensures[C19:bal] cwf(client) && livebal(csock(client)) == old(livebal(csock(client)))
+//@ func mail.Client.CloseWithSMTPClient
+//@   requires[C19:wf] client != nil ==> cwf(client)
+//@   ensures[C19:bal] client != nil ==> cwf(client) && livebal(csock(client)) == old(livebal(csock(client))) && !csock(client).open
+//@ func mail.Client.DialToSMTPClientWithContext (ctxDial) (client, err)
+//@   requires[C19:wf] c != nil
+//@   ensures[C19:noleak] err != nil ==> world.liveConns == old(world.liveConns)
+//@   ensures[C19:live] err == nil ==> cwf(client) && fresh(csock(client)) && livebal(csock(client)) == old(world.liveConns)
+//@ func mail.Client.DialAndSendWithContext$1
+//@   requires[C19:wf] client != nil ==> cwf(client)
+//@   ensures[C19:bal] client != nil ==> cwf(client) && livebal(csock(client)) == old(livebal(csock(client))) && !csock(client).open
+//@ func mail.Client.DialAndSendWithContext
+//@   requires[C19:wf] c != nil
+//@   ensures[C19:noleak] world.liveConns == old(world.liveConns)
